@@ -49,6 +49,21 @@ pub fn geometry(live: &Live, want: (usize, usize)) -> Option<(&'static str, Stri
     None
 }
 
+/// Functions that leave the wrap-pending column whenever they execute (every explicit horizontal or
+/// vertical placement does; line feeds and reverse index keep it when they scroll).
+fn leaves_pending(f: &Function) -> bool {
+    use Function::*;
+    matches!(f, Cuu(_) | Cud(_) | Cuf(_) | Cub(_) | Cnl(_) | Cpl(_) | Vpr(_) | Vpa(_) | Cup(..) | Cha(_) | Cr | Bs | Ht | Cht(_) | Cbt(_) | Decrc | Scorc | Decstbm(..))
+}
+
+/// true if, after the last Print/Rep of the call, a function executed that leaves the wrap-pending
+/// column - then the call cannot legitimately end with col == cols
+fn pending_must_be_gone(funcs: &[Function]) -> Option<&Function> {
+    let last_print = funcs.iter().rposition(|f| matches!(f, Function::Print(_) | Function::Rep(_)));
+    let from = last_print.map(|k| k + 1).unwrap_or(0);
+    funcs[from..].iter().find(|f| leaves_pending(f))
+}
+
 fn check_changes(lines: &Option<Vec<usize>>, rows: usize) -> Option<(&'static str, String)> {
     if let Some(ls) = lines {
         for w in ls.windows(2) {
@@ -108,6 +123,13 @@ impl Check for C02 {
                                 if !(printed || pre.col == want.0) {
                                     return fail("pending-not-by-print", format!("cursor.col == cols after feed({:?}) without a print (before: col {})", ch, pre.col));
                                 }
+                                let switched = rep.funcs.iter().any(|f| matches!(f, Function::Decset(_) | Function::Decrst(_) | Function::Ris));
+                                if !printed && !switched && c.row != pre.row {
+                                    return fail("pending-moved-without-print", format!("feed({:?}) moved the cursor from row {} to row {} keeping col == cols although nothing was printed", ch, pre.row, c.row));
+                                }
+                                if let Some(f) = pending_must_be_gone(&rep.funcs) {
+                                    return fail("pending-survived-a-move", format!("cursor.col == cols after {:?}, which places the cursor explicitly", f));
+                                }
                             }
                         }
                         env += 1;
@@ -117,6 +139,7 @@ impl Check for C02 {
                             want = (*cols, *rows);
                             env += 1;
                         }
+                        let pre_hid = if matches!(e, Event::FeedStr { .. } | Event::Inert { .. }) { Some(live.hid.clone()) } else { None };
                         let rep = live.apply(e);
                         fed += rep.chars as u64;
                         if let Some((r, d)) = geometry(&live, want) {
@@ -134,6 +157,36 @@ impl Check for C02 {
                             }
                             if !(printed || pre.col == pre_cols) {
                                 return fail("pending-not-by-print", format!("cursor.col == cols without a print in the call (before: col {})", pre.col));
+                            }
+                            let switched = rep.funcs.iter().any(|f| matches!(f, Function::Decset(_) | Function::Decrst(_) | Function::Ris));
+                            // (a buffer switch applies a pending rows-only resize to the screen that
+                            // becomes active, which may shift the row like a resize call does)
+                            if !printed && !switched && !matches!(e, Event::Resize { .. }) && c.row != pre.row {
+                                // a pending wrap that was not renewed by a print cannot have moved to
+                                // another row: every vertical move leaves the wrap-pending column
+                                return fail("pending-moved-without-print", format!("cursor went from row {} to row {} keeping col == cols although nothing was printed", pre.row, c.row));
+                            }
+                            if let (Some(mut h), true) = (pre_hid, pre.col != pre_cols) {
+                                // the wrap-pending position was reached in this call: by the statement
+                                // that needs a print in the last column *with auto-wrap on*. Replay the
+                                // call's functions on the hidden-state tracker: if auto-wrap was off at
+                                // every print of the call, the position cannot be legitimate.
+                                let mut any_print_with_awm = false;
+                                for f in &rep.funcs {
+                                    if matches!(f, Function::Print(_) | Function::Rep(_)) && h.awm {
+                                        any_print_with_awm = true;
+                                    }
+                                    crate::sim::harness(|| {
+                                        h.step(f);
+                                    });
+                                }
+                                if !any_print_with_awm {
+                                    return fail("pending-with-auto-wrap-off", "cursor.col == cols was reached in a call in which auto-wrap was off at every print".to_string());
+                                }
+                                st.bump("pending_reached_checked_against_auto_wrap");
+                            }
+                            if let Some(f) = pending_must_be_gone(&rep.funcs) {
+                                return fail("pending-survived-a-move", format!("cursor.col == cols at the end of a call in which {:?} executed after the last print", f));
                             }
                             st.bump("wrap_pending_after_call");
                         }
@@ -157,7 +210,7 @@ impl Check for C02 {
     fn meta(&self) -> Meta {
         Meta {
             rule: "chaos sessions as in C01; after every feed_str / feed(char) / resize the geometry invariants of the statement are evaluated through the public API; non-trivial = fed >= 1 character and >= 1 resize or feed() loop; distinct = distinct final-screen digests",
-            assumptions: vec!["soft-wrap mark read through util::TextUnwrapper::push", "'col == cols only by printing' checked as the necessary condition: a Print/Rep was dispatched in the call (lock-step parser) or the cursor was already pending before it and the width did not change", "a run in which avt panics is abandoned (C01's subject)"],
+            assumptions: vec!["soft-wrap mark read through util::TextUnwrapper::push", "'col == cols only by printing with auto-wrap on' checked as necessary conditions: a Print/Rep was dispatched in the call (lock-step parser) or the cursor was already pending before it on the same row and the width did not change; and when the position is newly reached, auto-wrap (hidden-state tracker: DECSET/DECRST 7, restored contexts, RIS) was on at some print of the call", "a run in which avt panics is abandoned (C01's subject)"],
             real: vec!["avt::Vt", "avt::parser::Parser (lock-step)"],
             simulated: vec!["App", "Pipe (cuts, damage)", "Window", "Consumer"],
             model: vec!["hidden-state tracker (alternate-screen flag for probes only)"],
